@@ -97,6 +97,14 @@ def judge_stopper(p, atol, rtol, max_iter, I, H):
         fails.append((j, "stop_now:max-iter-rule", ""))
     for j in np.where(cont != ~stop_now)[0]:
         fails.append((j, "continue:not-negation", ""))
+    # eager calls with a plain Python int counter (direct use of the public methods) agree with the traced ones
+    s_eager = Stopper(max_iter=max_iter, patience=p, atol=atol, rtol=rtol)
+    for j in sorted(set(list(range(0, n, max(1, n // 24))) + [n - 1])):
+        hj, ij = jnp.asarray(H[j].astype(F32)), int(I[j])
+        got = (bool(s_eager.stop_early(ij, hj)), bool(s_eager.stop_now(ij, hj)), bool(s_eager.continue_(ij, hj)))
+        exp3 = (bool(stop_early[j]), bool(stop_now[j]), bool(cont[j]))
+        if got != exp3:
+            fails.append((j, "eager-call-with-python-int-differs-from-traced-call", f"(stop_early, stop_now, continue_) eager {got} traced {exp3}"))
     if len(idx):
         best = np.asarray(wb(Ij[idx], Hj[idx]))
         exp = I[idx] - p + 1 + np.argmin(win, axis=1)
